@@ -113,7 +113,7 @@ def run_tour(facet: str, seed: int, rec: Applied, chk: common.Check, visits: int
     from . import tour
 
     g = tour.graph(facet)
-    eps, st = tour.tour(g, random.Random(seed), episode_len=300)
+    eps, st = tour.tour(g, random.Random(seed), episode_len=300, level="coarse" if visits == 1 else "exact")
     chk.add_mc(f"Lifecycle({facet})", g["tlc"])
     chk.cov[f"tour_{facet}"] = st
     cfg, idx = tour.scenario(facet, masking=True)
